@@ -1,7 +1,14 @@
 package main
 
 import (
+	"crypto"
+	"crypto/ed25519"
+	"crypto/rand"
 	"crypto/sha256"
+	"crypto/tls"
+	"crypto/x509"
+	"net"
+	"sort"
 	"fmt"
 	"io"
 	"net/http/httptest"
@@ -12,6 +19,7 @@ import (
 	"time"
 
 	"github.com/Cloud-Foundations/keymaster/keymasterd/admincache"
+	"github.com/Cloud-Foundations/keymaster/lib/certgen"
 
 )
 
@@ -60,6 +68,13 @@ func TestVerifC06(t *testing.T) {
 				defer rig.srv.Close()
 			}
 			vio.emit("%s", rig.probe(t, state, shapes, f[1], f[2], f[3] == "1"))
+		case "cfgdeny":
+			n, err := strconv.Atoi(f[1])
+			if err != nil || n < 1 {
+				vio.emit("bad-op")
+				continue
+			}
+			vio.emit("%s", vfCfgDenyProbe(t, n))
 		case "rt":
 			// rt <path> <webui csv|-> <7 shape tokens>
 			if len(f) != 10 {
@@ -203,4 +218,108 @@ func vfProbeRoute(t *testing.T, state *RuntimeState, shapes *vfShapes, path, web
 	}
 	code := rr.Code
 	return fmt.Sprintf("%d eff=%s %s", code, e, strings.Join(eff, ","))
+}
+
+// vfCfgDenyProbe: at least n fresh keys whose fingerprints between them start with every hex digit are written
+// into denytrustdata.key_deny_list_ssh_sha256 of a configuration FILE, exactly as getKeyFingerprint prints them;
+// the file is read by the real loader. A keymaster-signed user certificate and an IP-restricted certificate
+// (presented from inside its block) over each listed key must be refused by checkAuth; two unlisted keys are
+// the control. `admitted=<first digits of listed keys admitted|-> ipadmitted=<…> control=<k>/2`.
+func vfCfgDenyProbe(t *testing.T, n int) string {
+	loader, err := vfConfigLoader(t)
+	if err != nil {
+		return "harness-error " + err.Error()
+	}
+	type kp struct {
+		pub crypto.PublicKey
+		fp  string
+	}
+	var listed []kp
+	seen := map[byte]bool{}
+	for len(listed) < n || len(seen) < 16 {
+		pub, _, err := ed25519.GenerateKey(rand.Reader)
+		if err != nil {
+			return "harness-error keygen"
+		}
+		fp, err := getKeyFingerprint(pub)
+		if err != nil {
+			return "harness-error fingerprint"
+		}
+		if len(listed) >= n && seen[fp[0]] {
+			continue
+		}
+		seen[fp[0]] = true
+		listed = append(listed, kp{pub, fp})
+	}
+	var list []interface{}
+	for _, k := range listed {
+		list = append(list, k.fp)
+	}
+	state, err := loader.load(map[string]interface{}{
+		"denytrustdata.key_deny_list_ssh_sha256": list,
+		"base.automation_users":                  []interface{}{"role1"},
+	}, true)
+	if err != nil {
+		return "load-error " + strings.Join(strings.Fields(err.Error()), "_")
+	}
+	kmCA, err1 := x509.ParseCertificate(state.caCertDer[len(state.caCertDer)-1])
+	roleCA, err2 := x509.ParseCertificate(state.selfRoleCaCertDer)
+	if err1 != nil || err2 != nil {
+		return "harness-error ca"
+	}
+	_, block, _ := net.ParseCIDR("10.0.0.0/8")
+	probe := func(pub crypto.PublicKey, ip bool) bool {
+		var der []byte
+		var err error
+		ca := kmCA
+		if ip {
+			ca = roleCA
+			der, err = certgen.GenIPRestrictedX509Cert("role1", pub, roleCA, state.Signer, []net.IPNet{*block}, time.Hour, nil, nil)
+		} else {
+			der, err = certgen.GenUserX509Cert("alice", pub, kmCA, state.Signer, nil, time.Hour, nil, nil, nil, logger)
+		}
+		if err != nil {
+			t.Fatal(err)
+		}
+		leaf, err := x509.ParseCertificate(der)
+		if err != nil {
+			t.Fatal(err)
+		}
+		req := httptest.NewRequest("POST", "/some/path", nil)
+		req.RemoteAddr = "10.1.2.3:4321"
+		req.TLS = &tls.ConnectionState{VerifiedChains: [][]*x509.Certificate{{leaf, ca}}, PeerCertificates: []*x509.Certificate{leaf}}
+		w := &vfTrackRW{ResponseRecorder: httptest.NewRecorder()}
+		admitted := false
+		func() {
+			defer func() { recover() }()
+			info, err := state.checkAuth(w, req, 65535)
+			admitted = err == nil && info != nil
+		}()
+		return admitted
+	}
+	var adm, ipadm []string
+	for _, k := range listed {
+		if probe(k.pub, false) {
+			adm = append(adm, k.fp[:1])
+		}
+		if probe(k.pub, true) {
+			ipadm = append(ipadm, k.fp[:1])
+		}
+	}
+	control := 0
+	cpub, _, _ := ed25519.GenerateKey(rand.Reader)
+	if probe(cpub, false) {
+		control++
+	}
+	if probe(cpub, true) {
+		control++
+	}
+	join := func(l []string) string {
+		if len(l) == 0 {
+			return "-"
+		}
+		sort.Strings(l)
+		return strings.Join(l, ",")
+	}
+	return fmt.Sprintf("admitted=%s ipadmitted=%s control=%d/2", join(adm), join(ipadm), control)
 }
